@@ -387,6 +387,11 @@ class Executor:
             return x[1] == y[1] and x[2] == y[2]
         if x[0] == 'M' and y[0] == 'M':
             return x[1] == y[1]
+        if x[0] == 'S' and y[0] == 'S':
+            # Go only allows comparing a slice with nil
+            if x[1] is None or y[1] is None:
+                return x[1] is None and y[1] is None
+            raise Unsupported('slice compare')
         if x[0] == 'S' or y[0] == 'S':
             raise Unsupported('slice compare')
         return x == y
